@@ -323,7 +323,7 @@ impl Exec {
                     self.model_attach(s as usize, hn, (ids[i], zp(&self.model, s, p)));
                 }
                 self.model.hs[hn].pending_kill = true;
-                vec!["C05", "C02"]
+                vec!["C05"]
             }
             OpKind::CreateDeferred {
                 via,
@@ -385,7 +385,7 @@ impl Exec {
                         }
                     }
                 }
-                vec!["C05", "C02"]
+                vec!["C05"]
             }
             OpKind::CreateIterDeferred(n) => {
                 let es: Vec<Entity> = {
@@ -418,7 +418,7 @@ impl Exec {
                     self.model.kill(hn);
                     self.stats.deletions_effective += 1;
                 }
-                vec!["C05", "C02"]
+                vec!["C05"]
             }
             OpKind::DeleteBatch(hs) => {
                 let mut list = vec![];
@@ -454,7 +454,7 @@ impl Exec {
                         ),
                     ));
                 }
-                vec!["C05", "C02"]
+                vec!["C05"]
             }
             OpKind::DeleteDeferred(h) => {
                 let Some((hn, e)) = self.res(*h) else { return self.skip() };
@@ -479,7 +479,7 @@ impl Exec {
                 if exp_ok {
                     self.model.hs[hn].pending_kill = true;
                 }
-                vec!["C02", "C05"]
+                vec!["C05"]
             }
             OpKind::DeleteAll => {
                 self.wm().delete_all();
@@ -487,10 +487,10 @@ impl Exec {
                     self.model.kill(hn);
                     self.stats.deletions_effective += 1;
                 }
-                vec!["C05", "C02"]
+                vec!["C05"]
             }
             OpKind::Maintain => {
-                let r = self.maintain().and_then(|_| self.post(&["C09", "C05", "C02"]));
+                let r = self.maintain().and_then(|_| self.post(&["C09", "C05"]));
                 self.c10_window = false;
                 return r;
             }
